@@ -27,7 +27,7 @@ from vmon.util import derive_rng, shash
 
 LEVEL = "fault_enumeration"
 MANIFEST = {
-    "text": "Long sessions in one process interleave build / optimize (keeping the optimized object alive) / compute / len / divisions / drop + gc.collect() / pickle-drop-restore / injected-failure-then-retry steps over a pool of 25-60 queries - more than every planner cache holds (10) - biased to cache users (sort_values / set_index on many columns with varied npartitions / ascending / upsample, repartition(partition_size=), one frame under many (npartitions, sort) layouts, repartition(pdf, divisions), random programs). Failures are injected through a user function that raises while a flag is set (during planning-time quantile computes and at execution) and the step is retried. Every observation recorded in the session is compared with the same query built alone in a fresh interpreter; parquet and CSV datasets are rewritten in place (different row count) and re-read. A cache monitor records inserts, hits and evictions per cache.",
+    "text": "Long sessions in one process interleave build / optimize (keeping the optimized object alive) / compute / len / divisions / drop + gc.collect() / pickle-drop-restore / injected-failure-then-retry steps over a pool of 25-60 queries - more than every planner cache holds (10) - biased to cache users (sort_values / set_index on many columns with varied npartitions / ascending / upsample, repartition(partition_size=), one frame under many (npartitions, sort) layouts, repartition(pdf, divisions), random programs). Failures are injected through a user function that raises while a flag is set (during planning-time quantile computes and at execution) and the step is retried. Every observation recorded in the session is compared with the same query built alone in a fresh interpreter; parquet and CSV datasets are rewritten in place (different row count) and re-read. A cache monitor records inserts, hits and evictions per cache. Pools contain sibling views: a query and a narrowing selection of it, five views of one parquet dataset with unevenly sized files, aggregation / projection / rebuilt copy.",
     "note": "fault_enumeration over sampled histories: failures are injected at every flaky query's planning and execution compute, not at every program point. One fresh observer process per observed query (about 1.5 s).",
     "technique": "runtime monitoring: long-history sessions with fault injection, M-cache event log, and a fresh-process differential oracle per observation",
     "design_ref": "DESIGN.md section 4, C15",
